@@ -282,6 +282,37 @@ func (p *proxyProc) stderrTail() string {
 	return clipText(s)
 }
 
+func (p *proxyProc) fullStderr() string {
+	b, _ := os.ReadFile(p.stderr)
+	return string(b)
+}
+
+// clientGoroutineBlockedInside looks at a goroutine dump of the proxy for the
+// goroutine that relays client data and says whether it is parked on something
+// internal to the proxy (a channel send to the parser, a mutex) rather than on
+// network input.
+func clientGoroutineBlockedInside(dump string) string {
+	i := strings.LastIndex(dump, "SIGQUIT")
+	if i >= 0 {
+		dump = dump[i:]
+	}
+	for _, g := range strings.Split(dump, "\n\n") {
+		if !strings.Contains(g, "handleClientMessages") {
+			continue
+		}
+		hdr := g
+		if j := strings.IndexByte(g, '\n'); j >= 0 {
+			hdr = g[:j]
+		}
+		for _, st := range []string{"chan send", "sync.Mutex.Lock", "sync.RWMutex", "semacquire"} {
+			if strings.Contains(hdr, st) {
+				return strings.TrimSpace(hdr)
+			}
+		}
+	}
+	return ""
+}
+
 func (p *proxyProc) report() (string, error) {
 	cl := http.Client{Timeout: 20 * time.Second}
 	resp, err := cl.Get(fmt.Sprintf("http://127.0.0.1:%d/status/report", p.ctlPort))
@@ -382,8 +413,8 @@ func execC19Session(c *child.Ctx, k proxyCase, cj []byte) {
 		wg.Add(4)
 		go func() { defer wg.Done(); writeChunks(conn, clientBytes, k.Chunk, k.GapUs, ref.NewRand(k.Seed+1)) }()
 		go func() { defer wg.Done(); writeChunks(up, serverBytes, k.Chunk, k.GapUs, ref.NewRand(k.Seed+2)) }()
-		go func() { defer wg.Done(); upGot = readN(up, len(clientBytes), 60*time.Second) }()
-		go func() { defer wg.Done(); clGot = readN(conn, len(serverBytes), 60*time.Second) }()
+		go func() { defer wg.Done(); upGot = readN(up, len(clientBytes), 20*time.Second) }()
+		go func() { defer wg.Done(); clGot = readN(conn, len(serverBytes), 20*time.Second) }()
 		// poll the status page continuously while traffic flows
 		var reports []string
 		var repMu sync.Mutex
@@ -425,14 +456,14 @@ func execC19Session(c *child.Ctx, k proxyCase, cj []byte) {
 				return
 			}
 			if len(upGot) < len(clientBytes) && bytes.Equal(upGot, clientBytes[:len(upGot)]) {
-				// alive but silent for a minute: ask the runtime what it is doing
+				// alive but silent for 20 s: ask the runtime what it is doing
 				p.cmd.Process.Signal(syscall.SIGQUIT)
 				<-p.exited
 				dump := p.stderrTail()
-				if strings.Contains(dump, "handleClientMessages") && strings.Contains(dump, "chan send") {
-					c.Violate("relay-stopped", fmt.Sprintf("the proxy stopped relaying after %d of %d client bytes; its client goroutine is blocked handing bytes to the parser:\n%s", len(upGot), len(clientBytes), dump), cj)
+				if why := clientGoroutineBlockedInside(p.fullStderr()); why != "" {
+					c.Violate("relay-stopped", fmt.Sprintf("the proxy stopped relaying after %d of %d client bytes; its client-side goroutine is blocked inside the proxy (%s), not waiting for the network:\n%s", len(upGot), len(clientBytes), why, dump), cj)
 				} else {
-					c.Inconclusive("relay incomplete after 60 s without a logical explanation")
+					c.Inconclusive("relay incomplete after 20 s without a logical explanation")
 				}
 				conn.Close()
 				up.Close()
@@ -720,25 +751,6 @@ func monC19(c *child.Ctx, replay json.RawMessage) {
 		return
 	}
 	r := ref.NewRand(c.Seed*694847539 + uint64(c.Batch)*715225741 + 19)
-	ns := c.Share(c.Pick(40, 1500))
-	for i := 0; i < ns; i++ {
-		k := proxyCase{ID: c.Batch*10000 + i, Kind: "session", Chunk: []int{0, 1, 17, 512, 4096}[r.Intn(5)], GapUs: []int{0, 200, 2000}[r.Intn(3)], Seed: r.Uint64() >> 1}
-		nconn := r.Range(1, 3)
-		size := 64000 / nconn
-		if k.Chunk == 1 {
-			size = 3000
-		}
-		for j := 0; j < nconn; j++ {
-			k.Conns = append(k.Conns, hexs(proxyStream(r, r.Range(size/4, size))))
-			k.Server = append(k.Server, hexs(proxyStream(r, r.Range(10, size/2))))
-		}
-		cj := c.BeginV(k)
-		execC19Session(c, k, cj)
-		c.Eval(ref.Hash64(cj), true)
-		if c.WantSample() {
-			c.Sample(map[string]interface{}{"kind": "session", "connections": nconn, "chunk": k.Chunk, "gap_us": k.GapUs, "client_bytes_first_connection": len(k.Conns[0]) / 2})
-		}
-	}
 	nst := c.Share(c.Pick(2000, 100000))
 	// Status writes a short note to stderr on every call; keep the child's log small
 	devnull, _ := os.OpenFile(os.DevNull, os.O_WRONLY, 0)
@@ -763,4 +775,26 @@ func monC19(c *child.Ctx, replay json.RawMessage) {
 		c.Eval(ref.Hash64(cj), true)
 	}
 	os.Stderr = saved
+	ns := c.Share(c.Pick(40, 1500))
+	for i := 0; i < ns; i++ {
+		k := proxyCase{ID: c.Batch*10000 + i, Kind: "session", Chunk: []int{0, 1, 17, 512, 4096}[r.Intn(5)], GapUs: []int{0, 200, 2000}[r.Intn(3)], Seed: r.Uint64() >> 1}
+		nconn := r.Range(1, 3)
+		size := 64000 / nconn
+		if k.Chunk == 1 {
+			size = 3000
+		}
+		for j := 0; j < nconn; j++ {
+			k.Conns = append(k.Conns, hexs(proxyStream(r, r.Range(size/4, size))))
+			k.Server = append(k.Server, hexs(proxyStream(r, r.Range(10, size/2))))
+		}
+		if c.NViolations() > 0 {
+			break // the tree is already known to violate; further sessions only cost time
+		}
+		cj := c.BeginV(k)
+		execC19Session(c, k, cj)
+		c.Eval(ref.Hash64(cj), true)
+		if c.WantSample() {
+			c.Sample(map[string]interface{}{"kind": "session", "connections": nconn, "chunk": k.Chunk, "gap_us": k.GapUs, "client_bytes_first_connection": len(k.Conns[0]) / 2})
+		}
+	}
 }
